@@ -33,6 +33,19 @@ type KnownFinding struct {
 	What        string   `json:"what"`
 	Witness     string   `json:"witness,omitempty"`
 	Commit      string   `json:"commit,omitempty"`
+	Also        []string `json:"also,omitempty"` // other properties whose checks verify the same function (same obligation name)
+}
+
+func (k KnownFinding) appliesTo(id string) bool {
+	if k.Property == id {
+		return true
+	}
+	for _, a := range k.Also {
+		if a == id {
+			return true
+		}
+	}
+	return false
 }
 
 func loadKnownFindings(path string) []KnownFinding {
@@ -302,7 +315,7 @@ func cmdCheck(args []string) int {
 	var kfLines []string
 	openKF := map[string]KnownFinding{} // obligation name -> finding
 	for _, k := range kfs {
-		if k.Property == cfg.ID && k.Status == "open" {
+		if k.appliesTo(cfg.ID) && k.Status == "open" {
 			for _, o := range k.Obligations {
 				openKF[o] = k
 			}
